@@ -927,10 +927,1039 @@ pub fn strat_bytes(_t: Tier) -> BoxedStrategy<BytesCase> {
     (data, io_strat()).prop_map(|(data, io)| BytesCase { data: B(data), io }).boxed()
 }
 
+// ---------------------------------------------------------------------------
+// large-scale sub-checks (C11/large-*): every size parameter of the readers and writers is pushed
+// across the threshold ladder 255..257, 511..513, ... 2^20+1 (oracles::scale::c111213).
+//
+// A case holds only parameters; the records, the file and the reader configurations are a fixed
+// function of them (splitmix64 streams), so replay files stay tiny.  The scaled parameter is `what`:
+//   Seq      length of ONE unwrapped sequence line (FASTA and FASTQ)
+//   Wrap     line width (FASTA writer line wrap; FASTA/FASTQ harness layout with that width)
+//   Lines    number of sequence (and quality) lines of ONE record
+//   Desc/Id  byte length of the description / the id of one header line
+//   Records  number of (small) records
+//   Cap      BufReader capacity, lines straddling it (with_capacity, from_bufread, from_file_with_capacity)
+//   Chunk    size of the pieces the underlying read() delivers (fill_buf returns that much at once)
+//   WCap     BufWriter capacity of the writers (with_capacity, from_bufwriter, to_file_with_capacity)
+//   FileHist histories on ONE path: long file, then a shorter one, then a medium one (to_file/from_file ...)
+//   Cut      truncation offset (no panic, termination, FASTQ records passing check() are original ones)
+//   Junk     length of arbitrary/structured junk (no panic, termination)
+pub mod large {
+    use super::*;
+    use crate::oracles::scale::c111213::{band_label, intern, ladder, publish, Sm, TmpFiles};
+    use std::borrow::Cow;
+    use std::io::{BufRead, BufWriter, Cursor, Write};
+
+    #[derive(Serialize, Deserialize, Debug, Clone, Copy, PartialEq, Eq)]
+    pub enum What {
+        Seq,
+        Wrap,
+        Lines,
+        Desc,
+        Id,
+        Records,
+        Cap,
+        Chunk,
+        WCap,
+        FileHist,
+        Cut,
+        Junk,
+    }
+
+    #[derive(Serialize, Deserialize, Debug, Clone, Copy, PartialEq, Eq)]
+    pub enum Pat {
+        /// pseudo-random symbols
+        Random,
+        /// one symbol everywhere (quality: all '+' or all '@'); `Records`: all records identical
+        Homo,
+        /// short period (2..=7)
+        Periodic,
+    }
+
+    #[derive(Serialize, Deserialize, Debug, Clone)]
+    pub struct LCase {
+        pub kind: Kind,
+        pub what: What,
+        /// value of the scaled parameter
+        pub n: usize,
+        /// secondary choice, meaning depends on `what` (shape of the record list, line width for `Lines`, junk kind ...)
+        pub aux: usize,
+        pub pat: Pat,
+        pub seed: u64,
+        /// the harness layout uses CRLF
+        pub crlf: bool,
+    }
+
+    const SEQ_ALPH: &[u8] = b"ACGTNacgtnRYKMSWBDHV*-.";
+
+    fn gen_seq(pat: Pat, n: usize, seed: u64) -> Vec<u8> {
+        match pat {
+            Pat::Homo => vec![SEQ_ALPH[(seed % 5) as usize]; n],
+            Pat::Periodic => {
+                let p = 2 + (seed % 6) as usize;
+                (0..n).map(|i| SEQ_ALPH[i % p]).collect()
+            }
+            Pat::Random => {
+                let mut g = Sm::new(seed, 0x5e9);
+                let mut v = Vec::with_capacity(n + 8);
+                while v.len() < n {
+                    let mut x = g.next();
+                    for _ in 0..8 {
+                        v.push(SEQ_ALPH[(x & 0xff) as usize % SEQ_ALPH.len()]);
+                        x >>= 8;
+                    }
+                }
+                v.truncate(n);
+                v
+            }
+        }
+    }
+
+    fn gen_qual(pat: Pat, n: usize, seed: u64) -> Vec<u8> {
+        match pat {
+            Pat::Homo => vec![[b'+', b'@', b'I'][(seed % 3) as usize]; n],
+            Pat::Periodic => {
+                let p = 2 + (seed % 6) as usize;
+                (0..n).map(|i| b"@+I!>~#"[i % p]).collect()
+            }
+            Pat::Random => {
+                let mut g = Sm::new(seed, 0x9a1);
+                let mut v = Vec::with_capacity(n + 8);
+                while v.len() < n {
+                    let mut x = g.next();
+                    for _ in 0..8 {
+                        v.push(b'!' + ((x & 0xff) as u8) % 94);
+                        x >>= 8;
+                    }
+                }
+                v.truncate(n);
+                if n > 0 {
+                    match seed % 3 {
+                        0 => v[0] = b'@',
+                        1 => v[0] = b'+',
+                        _ => {}
+                    }
+                }
+                v
+            }
+        }
+    }
+
+    /// `n` bytes of header text: mode 0 = printable ASCII without blanks, 1 = with multi-byte UTF-8
+    /// characters, 2 = ASCII with inner blanks, tabs and runs of blanks (descriptions only).
+    /// First and last byte are ASCII letters/digits.
+    fn gen_text(n: usize, seed: u64, mode: usize) -> String {
+        let mut g = Sm::new(seed, 0x7e47 + mode as u64);
+        let mut v: Vec<u8> = Vec::with_capacity(n);
+        const EDGE: &[u8] = b"abcxyzABCXYZ0189";
+        if n == 0 {
+            return String::new();
+        }
+        v.push(EDGE[g.below(EDGE.len() as u64) as usize]);
+        while v.len() + 1 < n {
+            let room = n - 1 - v.len();
+            let x = g.next();
+            let r = x % 20;
+            if mode == 1 && r == 0 && room >= 2 {
+                v.extend_from_slice("é".as_bytes());
+            } else if mode == 1 && r == 1 && room >= 3 {
+                v.extend_from_slice("日".as_bytes());
+            } else if mode == 2 && r < 3 {
+                v.push(b' ');
+            } else if mode == 2 && r == 3 {
+                v.push(b'\t');
+            } else {
+                v.push(b'!' + ((x >> 8) % 94) as u8);
+            }
+        }
+        if v.len() < n {
+            v.push(EDGE[g.below(EDGE.len() as u64) as usize]);
+        }
+        String::from_utf8(v).expect("gen_text builds valid UTF-8")
+    }
+
+    fn small_rec(tag: &str, len: usize, seed: u64, with_desc: bool) -> Rec {
+        Rec { id: tag.to_string(), desc: if with_desc { Some(format!("{} small  rec", tag)) } else { None }, seq: B(gen_seq(Pat::Random, len, seed ^ 0x11)), qual: B(gen_qual(Pat::Random, len, seed ^ 0x12)) }
+    }
+
+    fn big_rec(id: &str, desc: Option<String>, len: usize, pat: Pat, seed: u64) -> Rec {
+        Rec { id: id.to_string(), desc, seq: B(gen_seq(pat, len, seed)), qual: B(gen_qual(pat, len, seed)) }
+    }
+
+    /// the records of a case: a short explicit list, or `n` small records that are a function of (seed, index)
+    pub enum Recs {
+        List(Vec<Rec>),
+        Many { n: usize, seed: u64, pat: Pat },
+    }
+
+    fn many_rec(seed: u64, pat: Pat, i: usize) -> Rec {
+        match pat {
+            Pat::Homo => Rec { id: "x".into(), desc: None, seq: B(vec![b'A']), qual: B(vec![if seed & 1 == 1 { b'+' } else { b'@' }]) },
+            _ => {
+                let mut g = Sm::new(seed, i as u64);
+                let len = 1 + g.below(6) as usize;
+                let desc = if g.below(3) == 0 { Some(format!("d{} e", i % 10)) } else { None };
+                Rec { id: format!("r{}", i), desc, seq: B(gen_seq(pat, len, g.next())), qual: B(gen_qual(pat, len, g.next())) }
+            }
+        }
+    }
+
+    /// `n` small records; materialised once when that stays small, otherwise regenerated on demand
+    fn many(n: usize, seed: u64, pat: Pat) -> Recs {
+        if n <= 300_000 {
+            Recs::List((0..n).map(|i| many_rec(seed, pat, i)).collect())
+        } else {
+            Recs::Many { n, seed, pat }
+        }
+    }
+
+    impl Recs {
+        fn len(&self) -> usize {
+            match self {
+                Recs::List(v) => v.len(),
+                Recs::Many { n, .. } => *n,
+            }
+        }
+        fn get(&self, i: usize) -> Cow<'_, Rec> {
+            match self {
+                Recs::List(v) => Cow::Borrowed(&v[i]),
+                Recs::Many { seed, pat, .. } => Cow::Owned(many_rec(*seed, *pat, i)),
+            }
+        }
+    }
+
+    // ---- what a reader returned
+
+    pub struct Got {
+        id: String,
+        desc: Option<String>,
+        seq: Vec<u8>,
+        qual: Option<Vec<u8>>,
+        ok: bool,
+    }
+
+    fn exc(b: &[u8]) -> String {
+        if b.len() <= 80 {
+            format!("{:?}", lossy(b))
+        } else {
+            format!("{:?}..{:?} ({} bytes)", lossy(&b[..40]), lossy(&b[b.len() - 40..]), b.len())
+        }
+    }
+
+    fn show_got(g: &Got) -> String {
+        format!("{{id {} desc {:?} seq {} qual {:?}}}", exc(g.id.as_bytes()), g.desc.as_ref().map(|d| exc(d.as_bytes())), exc(&g.seq), g.qual.as_ref().map(|q| exc(q)))
+    }
+
+    fn show_rec(kind: Kind, r: &Rec) -> String {
+        format!("{{id {} desc {:?} seq {} qual {:?}}}", exc(r.id.as_bytes()), r.desc.as_ref().map(|d| exc(d.as_bytes())), exc(&r.seq), if kind == Kind::Fastq { Some(exc(&r.qual)) } else { None })
+    }
+
+    fn same(kind: Kind, g: &Got, r: &Rec) -> bool {
+        g.id == r.id && g.desc == r.desc && g.seq == r.seq.0 && (kind == Kind::Fasta || g.qual.as_deref() == Some(&r.qual.0[..]))
+    }
+
+    fn first_diff(a: &[u8], b: &[u8]) -> usize {
+        a.iter().zip(b.iter()).position(|(x, y)| x != y).unwrap_or(a.len().min(b.len()))
+    }
+
+    fn got_fa(r: &fasta::Record) -> Got {
+        Got { id: r.id().to_string(), desc: r.desc().map(|s| s.to_string()), seq: r.seq().to_vec(), qual: None, ok: r.check().is_ok() }
+    }
+    fn got_fq(r: &fastq::Record) -> Got {
+        Got { id: r.id().to_string(), desc: r.desc().map(|s| s.to_string()), seq: r.seq().to_vec(), qual: Some(r.qual().to_vec()), ok: r.check().is_ok() }
+    }
+    fn got_either(r: &fastx::EitherRecord) -> Got {
+        Got { id: FxRecord::id(r).to_string(), desc: FxRecord::desc(r).map(|s| s.to_string()), seq: FxRecord::seq(r).to_vec(), qual: FxRecord::qual(r).map(|q| q.to_vec()), ok: FxRecord::check(r).is_ok() }
+    }
+
+    /// one pull = one item of the record stream (None = end)
+    type Puller<'a> = Box<dyn FnMut() -> Option<Result<Got, String>> + 'a>;
+
+    fn fa_iter<'a, I: Iterator<Item = std::io::Result<fasta::Record>> + 'a>(mut it: I) -> Puller<'a> {
+        Box::new(move || it.next().map(|x| x.map(|r| got_fa(&r)).map_err(|e| format!("{:?}", e))))
+    }
+    fn fq_iter<'a, I: Iterator<Item = fastq::Result<fastq::Record>> + 'a>(mut it: I) -> Puller<'a> {
+        Box::new(move || it.next().map(|x| x.map(|r| got_fq(&r)).map_err(|e| format!("{:?}", e))))
+    }
+    fn either_iter<'a, R: BufRead + 'a>(mut it: fastx::EitherRecords<R>) -> Puller<'a> {
+        Box::new(move || it.next().map(|x| x.map(|r| got_either(&r)).map_err(|e| format!("{:?}", e))))
+    }
+    /// the documented loop: read() into one reused Record until it comes back empty or fails
+    fn fa_loop<'a, Bf: BufRead + 'a>(mut rd: fasta::Reader<Bf>) -> Puller<'a> {
+        let mut rec = fasta::Record::new();
+        let mut done = false;
+        Box::new(move || {
+            if done {
+                return None;
+            }
+            match rd.read(&mut rec) {
+                Err(e) => {
+                    done = true;
+                    Some(Err(format!("{:?}", e)))
+                }
+                Ok(()) if rec.is_empty() => {
+                    done = true;
+                    None
+                }
+                Ok(()) => Some(Ok(got_fa(&rec))),
+            }
+        })
+    }
+    fn fq_loop<'a, Bf: BufRead + 'a>(mut rd: fastq::Reader<Bf>) -> Puller<'a> {
+        let mut rec = fastq::Record::new();
+        let mut done = false;
+        Box::new(move || {
+            if done {
+                return None;
+            }
+            match rd.read(&mut rec) {
+                Err(e) => {
+                    done = true;
+                    Some(Err(format!("{:?}", e)))
+                }
+                Ok(()) if rec.is_empty() => {
+                    done = true;
+                    None
+                }
+                Ok(()) => Some(Ok(got_fq(&rec))),
+            }
+        })
+    }
+
+    /// how the bytes reach a parser
+    #[derive(Debug, Clone)]
+    pub enum Via {
+        /// `Reader::new(&bytes[..])`: default capacity, unfragmented
+        SliceNew,
+        /// `Reader::from_bufread(Cursor)`: fill_buf returns the whole rest of the stream at once
+        CursorBufRead,
+        /// `Reader::with_capacity(c, Cursor)`
+        WithCap(usize),
+        /// `Reader::from_bufread(BufReader::with_capacity(cap, chunked double))`, repeated read() into one Record
+        ReadLoop { cap: usize, sched: Vec<u32> },
+        /// `Reader::new(chunked double)`
+        ChunkedNew { sched: Vec<u32> },
+        /// `Reader::from_file(path)`
+        File,
+        /// `fasta::Reader::from_file_with_capacity(c, path)` (FASTQ has no such constructor: from_file)
+        FileCap(usize),
+        /// `EitherRecords::new(BufReader::with_capacity(cap, Cursor))`, optionally asking kind() first
+        Either { cap: usize, ask: bool },
+        /// `EitherRecords::from_file(path)` after `get_kind_file(path)`
+        EitherFile,
+        /// `get_kind(chunked double)`, then `Reader::new(returned chain)`
+        GetKind { sched: Vec<u32> },
+        /// `get_kind_seek(&mut Cursor)`, then `Reader::new(same cursor)`
+        GetKindSeek,
+    }
+
+    fn kind_of(k: fastx::Kind) -> Kind {
+        if k == fastx::Kind::FASTA {
+            Kind::Fasta
+        } else {
+            Kind::Fastq
+        }
+    }
+
+    /// Open `data[..end]` (or the file at `path` for the file variants) with parser `kind`.
+    /// `expect_kind`: the stream is a complete file of that kind, the sniffers must say so.
+    fn open<'a>(kind: Kind, via: &Via, data: &'a Rc<Vec<u8>>, end: usize, path: Option<&str>, expect_kind: Option<Kind>) -> Result<Puller<'a>, Stop> {
+        let sl: &'a [u8] = &data[..end];
+        let chunked = |sched: &[u32]| ChunkedReader::new(data.clone(), end, sched, None);
+        let need_path = || -> Result<&str, Stop> {
+            match path {
+                Some(p) => Ok(p),
+                None => Err(Stop::Fail("harness: file-based reader requested without a file".into())),
+            }
+        };
+        Ok(match (via, kind) {
+            (Via::SliceNew, Kind::Fasta) => fa_iter(fasta::Reader::new(sl).records()),
+            (Via::SliceNew, Kind::Fastq) => fq_iter(fastq::Reader::new(sl).records()),
+            (Via::CursorBufRead, Kind::Fasta) => fa_iter(fasta::Reader::from_bufread(Cursor::new(sl)).records()),
+            (Via::CursorBufRead, Kind::Fastq) => fq_iter(fastq::Reader::from_bufread(Cursor::new(sl)).records()),
+            (Via::WithCap(c), Kind::Fasta) => fa_iter(fasta::Reader::with_capacity((*c).max(1), Cursor::new(sl)).records()),
+            (Via::WithCap(c), Kind::Fastq) => fq_iter(fastq::Reader::with_capacity((*c).max(1), Cursor::new(sl)).records()),
+            (Via::ReadLoop { cap, sched }, Kind::Fasta) => fa_loop(fasta::Reader::from_bufread(BufReader::with_capacity((*cap).max(1), chunked(sched)))),
+            (Via::ReadLoop { cap, sched }, Kind::Fastq) => fq_loop(fastq::Reader::from_bufread(BufReader::with_capacity((*cap).max(1), chunked(sched)))),
+            (Via::ChunkedNew { sched }, Kind::Fasta) => fa_iter(fasta::Reader::new(chunked(sched)).records()),
+            (Via::ChunkedNew { sched }, Kind::Fastq) => fq_iter(fastq::Reader::new(chunked(sched)).records()),
+            (Via::File, Kind::Fasta) => match fasta::Reader::from_file(need_path()?) {
+                Ok(r) => fa_iter(r.records()),
+                Err(e) => fail!("fasta::Reader::from_file({:?}) failed on an existing file: {:?}", path, e),
+            },
+            (Via::File, Kind::Fastq) | (Via::FileCap(_), Kind::Fastq) => match fastq::Reader::from_file(need_path()?) {
+                Ok(r) => fq_iter(r.records()),
+                Err(e) => fail!("fastq::Reader::from_file({:?}) failed on an existing file: {:?}", path, e),
+            },
+            (Via::FileCap(c), Kind::Fasta) => match fasta::Reader::from_file_with_capacity((*c).max(1), need_path()?) {
+                Ok(r) => fa_loop(r),
+                Err(e) => fail!("fasta::Reader::from_file_with_capacity({}, {:?}) failed on an existing file: {:?}", c, path, e),
+            },
+            (Via::Either { cap, ask }, _) => {
+                let mut er = fastx::EitherRecords::new(BufReader::with_capacity((*cap).max(1), Cursor::new(sl)));
+                if *ask {
+                    let k = er.kind().map(kind_of).map_err(|e| format!("{:?}", e));
+                    if let Some(want) = expect_kind {
+                        ensure!(k == Ok(want), "EitherRecords::kind() on a complete {:?} stream of {} bytes says {:?}", want, end, k);
+                    }
+                }
+                either_iter(er)
+            }
+            (Via::EitherFile, _) => {
+                let p = need_path()?;
+                if let Some(want) = expect_kind {
+                    let k = fastx::get_kind_file(p).map(kind_of).map_err(|e| format!("{:?}", e));
+                    ensure!(k == Ok(want), "get_kind_file({:?}) on a complete {:?} file says {:?}", p, want, k);
+                }
+                match fastx::EitherRecords::from_file(p) {
+                    Ok(er) => either_iter(er),
+                    Err(e) => fail!("EitherRecords::from_file({:?}) failed on an existing file: {:?}", p, e),
+                }
+            }
+            (Via::GetKind { sched }, _) => match fastx::get_kind(chunked(sched)) {
+                Ok((chain, k)) => {
+                    let k = kind_of(k);
+                    if let Some(want) = expect_kind {
+                        ensure!(k == want, "get_kind on a complete {:?} stream says {:?}", want, k);
+                    }
+                    match kind {
+                        Kind::Fasta => fa_iter(fasta::Reader::new(chain).records()),
+                        Kind::Fastq => fq_iter(fastq::Reader::new(chain).records()),
+                    }
+                }
+                Err(e) => {
+                    ensure!(expect_kind.is_none(), "get_kind on a complete {:?} stream failed: {:?}", expect_kind, e);
+                    Box::new(|| None)
+                }
+            },
+            (Via::GetKindSeek, _) => {
+                let mut cur = Cursor::new(sl);
+                match fastx::get_kind_seek(&mut cur) {
+                    Ok(k) => {
+                        let k = kind_of(k);
+                        if let Some(want) = expect_kind {
+                            ensure!(k == want, "get_kind_seek on a complete {:?} stream says {:?}", want, k);
+                        }
+                    }
+                    Err(e) => ensure!(expect_kind.is_none(), "get_kind_seek on a complete {:?} stream failed: {:?}", expect_kind, e),
+                }
+                match kind {
+                    Kind::Fasta => fa_iter(fasta::Reader::new(cur).records()),
+                    Kind::Fastq => fq_iter(fastq::Reader::new(cur).records()),
+                }
+            }
+        })
+    }
+
+    /// the stream must consist of exactly the records, in order
+    fn expect_all(p: &mut Puller, kind: Kind, recs: &Recs, ctx: &dyn Fn() -> String) -> Result<(), Stop> {
+        for i in 0..recs.len() {
+            let r = recs.get(i);
+            match p() {
+                None => fail!("{}: the stream ends after {} of {} records", ctx(), i, recs.len()),
+                Some(Err(e)) => fail!("{}: item #{} is Err({}) but record #{} of {} was written as {}", ctx(), i, e, i, recs.len(), show_rec(kind, &r)),
+                Some(Ok(g)) => ensure!(
+                    same(kind, &g, &r),
+                    "{}: record #{} of {} reads back as {} but was written as {} (sequence differs first at {}, quality at {:?})",
+                    ctx(),
+                    i,
+                    recs.len(),
+                    show_got(&g),
+                    show_rec(kind, &r),
+                    first_diff(&g.seq, &r.seq),
+                    g.qual.as_ref().map(|q| first_diff(q, &r.qual))
+                ),
+            }
+        }
+        match p() {
+            None => Ok(()),
+            Some(Ok(g)) => fail!("{}: an extra record {} follows the {} written records", ctx(), show_got(&g), recs.len()),
+            Some(Err(e)) => fail!("{}: an extra item Err({}) follows the {} written records", ctx(), e, recs.len()),
+        }
+    }
+
+    // ---- writing with the library
+
+    #[derive(Debug, Clone)]
+    pub enum WVia {
+        New,
+        Cap(usize),
+        BufW(usize),
+        File,
+        FileCap(usize),
+    }
+
+    fn emit_fa<W: Write>(w: &mut fasta::Writer<W>, recs: &Recs, via_record: bool) -> Result<(), Stop> {
+        for i in 0..recs.len() {
+            let r = recs.get(i);
+            let res = if via_record { w.write_record(&fasta::Record::with_attrs(&r.id, r.desc.as_deref(), &r.seq)) } else { w.write(&r.id, r.desc.as_deref(), &r.seq) };
+            ensure!(res.is_ok(), "fasta::Writer failed on record #{}: {:?}", i, res);
+        }
+        Ok(())
+    }
+
+    fn emit_fq<W: Write>(w: &mut fastq::Writer<W>, recs: &Recs, via_record: bool) -> Result<(), Stop> {
+        for i in 0..recs.len() {
+            let r = recs.get(i);
+            let res = if via_record { w.write_record(&fastq::Record::with_attrs(&r.id, r.desc.as_deref(), &r.seq, &r.qual)) } else { w.write(&r.id, r.desc.as_deref(), &r.seq, &r.qual) };
+            ensure!(res.is_ok(), "fastq::Writer failed on record #{}: {:?}", i, res);
+        }
+        Ok(())
+    }
+
+    /// write the records with the library writer; `flush`: call flush() explicitly (otherwise the writer is
+    /// only dropped, as in the crate's documentation examples).  File variants leave the file at `path`.
+    #[allow(clippy::too_many_arguments)]
+    fn write_lib(kind: Kind, recs: &Recs, wrap: Option<usize>, wv: &WVia, via_record: bool, flush: bool, path: Option<&str>) -> Result<Vec<u8>, Stop> {
+        let mut out: Vec<u8> = Vec::new();
+        macro_rules! run_fa {
+            ($w:expr) => {{
+                let mut w = $w;
+                w.set_linewrap(wrap);
+                emit_fa(&mut w, recs, via_record)?;
+                if flush {
+                    let r = w.flush();
+                    ensure!(r.is_ok(), "fasta::Writer::flush failed: {:?}", r);
+                }
+            }};
+        }
+        macro_rules! run_fq {
+            ($w:expr) => {{
+                let mut w = $w;
+                emit_fq(&mut w, recs, via_record)?;
+                if flush {
+                    let r = w.flush();
+                    ensure!(r.is_ok(), "fastq::Writer::flush failed: {:?}", r);
+                }
+            }};
+        }
+        let file_err = |e: std::io::Error| Stop::Fail(format!("writer could not create the file {:?}: {:?}", path, e));
+        match (kind, wv) {
+            (Kind::Fasta, WVia::New) => run_fa!(fasta::Writer::new(&mut out)),
+            (Kind::Fasta, WVia::Cap(c)) => run_fa!(fasta::Writer::with_capacity((*c).max(1), &mut out)),
+            (Kind::Fasta, WVia::BufW(c)) => run_fa!(fasta::Writer::from_bufwriter(BufWriter::with_capacity((*c).max(1), &mut out))),
+            (Kind::Fasta, WVia::File) => run_fa!(fasta::Writer::to_file(path.unwrap_or("")).map_err(file_err)?),
+            (Kind::Fasta, WVia::FileCap(c)) => run_fa!(fasta::Writer::to_file_with_capacity((*c).max(1), path.unwrap_or("")).map_err(file_err)?),
+            (Kind::Fastq, WVia::New) => run_fq!(fastq::Writer::new(&mut out)),
+            (Kind::Fastq, WVia::Cap(c)) => run_fq!(fastq::Writer::with_capacity((*c).max(1), &mut out)),
+            (Kind::Fastq, WVia::BufW(c)) => run_fq!(fastq::Writer::from_bufwriter(BufWriter::with_capacity((*c).max(1), &mut out))),
+            (Kind::Fastq, WVia::File) => run_fq!(fastq::Writer::to_file(path.unwrap_or("")).map_err(file_err)?),
+            (Kind::Fastq, WVia::FileCap(c)) => run_fq!(fastq::Writer::to_file_with_capacity((*c).max(1), path.unwrap_or("")).map_err(file_err)?),
+        }
+        if matches!(wv, WVia::File | WVia::FileCap(_)) {
+            match std::fs::read(path.unwrap_or("")) {
+                Ok(b) => out = b,
+                Err(e) => fail!("the file {:?} written by the {:?} writer cannot be read back: {:?}", path, kind, e),
+            }
+        }
+        Ok(out)
+    }
+
+    /// rendering by the harness (independent of the writers)
+    fn render_recs(kind: Kind, recs: &Recs, widths: &[usize], crlf: bool, final_newline: bool) -> Vec<u8> {
+        let nl: &[u8] = if crlf { b"\r\n" } else { b"\n" };
+        let mut out = Vec::new();
+        for i in 0..recs.len() {
+            render_one(kind, &recs.get(i), widths, nl, &mut out);
+        }
+        if !final_newline && out.len() >= nl.len() {
+            out.truncate(out.len() - nl.len());
+        }
+        out
+    }
+
+    /// FASTA writer with line wrap w: per record, all sequence lines have w symbols, the last 1..=w
+    fn check_wrap(written: &[u8], recs: &Recs, w: usize, ctx: &dyn Fn() -> String) -> Result<(), Stop> {
+        let mut it = written.split(|&b| b == b'\n');
+        for i in 0..recs.len() {
+            let r = recs.get(i);
+            let h = it.next();
+            ensure!(h.map_or(false, |h| h.first() == Some(&b'>')), "{}: record #{}: expected a header line, found {:?}", ctx(), i, h.map(exc));
+            let mut left = r.seq.len();
+            while left > 0 {
+                let want = left.min(w);
+                let l = it.next();
+                ensure!(l.map_or(false, |l| l.len() == want), "{}: record #{} (sequence of {} symbols, line wrap {}): a sequence line has {:?} symbols, expected {}", ctx(), i, r.seq.len(), w, l.map(|l| l.len()), want);
+                left -= want;
+            }
+        }
+        let rest: Vec<&[u8]> = it.collect();
+        ensure!(rest.len() == 1 && rest[0].is_empty(), "{}: {} unexpected trailing lines after the last record", ctx(), rest.len());
+        Ok(())
+    }
+
+    // ---- scenarios
+
+    fn straddle(n: usize, short: bool) -> Vec<usize> {
+        let mut v: Vec<usize> = if short { vec![n.saturating_sub(1), n, n + 1] } else { vec![n.saturating_sub(2), n.saturating_sub(1), n, n + 1, 5, 2 * n - 1, 2 * n, 2 * n + 1] };
+        v.retain(|&l| l >= 1);
+        v
+    }
+
+    fn straddle_recs(c: &LCase) -> Recs {
+        // above 200 000 only the three lengths around the scaled value (the stream stays below ~7 MB)
+        Recs::List(straddle(c.n, c.aux % 2 == 1 || c.n > 200_000).iter().enumerate().map(|(i, &l)| big_rec(&format!("s{}", i), if i % 2 == 0 { Some(format!("len {}", l)) } else { None }, l, c.pat, c.seed.wrapping_add(i as u64))).collect())
+    }
+
+    fn three(c: &LCase, big: Rec) -> Recs {
+        if c.aux % 4 == 3 {
+            Recs::List(vec![big])
+        } else {
+            Recs::List(vec![small_rec("first", 7, c.seed, true), big, small_rec("last", 3, c.seed ^ 0xabc, false)])
+        }
+    }
+
+    struct Scn {
+        recs: Recs,
+        /// FASTA writer line wrap
+        wrap: Option<usize>,
+        /// harness layout: cyclic widths
+        widths: Vec<usize>,
+        /// the unit that decides buffer-relative reader configurations (length of the longest line)
+        unit: usize,
+    }
+
+    fn scenario(c: &LCase) -> Scn {
+        let n = c.n.max(1);
+        match c.what {
+            What::Seq => Scn { recs: three(c, big_rec("big", Some("one line".into()), n, c.pat, c.seed)), wrap: None, widths: vec![], unit: n },
+            What::Wrap => {
+                let l = match c.aux % 3 {
+                    0 => 2 * n + n / 2 + 1,
+                    1 => 3 * n,
+                    _ => n + 1,
+                };
+                Scn { recs: three(c, big_rec("big", None, l, c.pat, c.seed)), wrap: Some(n), widths: vec![n], unit: n }
+            }
+            What::Lines => {
+                // wide lines only while the sequence stays small (the width ladder is `Wrap`'s business)
+                let w = if n <= 70_001 { [1usize, 2, 3, 61][c.aux % 4] } else { [1usize, 2, 3][c.aux % 3] };
+                let l = (n - 1) * w + 1 + (c.seed % w as u64) as usize;
+                Scn { recs: Recs::List(vec![small_rec("first", 7, c.seed, true), big_rec("big", Some(format!("{} lines", n)), l, c.pat, c.seed), small_rec("last", 3, c.seed ^ 0xabc, false)]), wrap: Some(w), widths: vec![w], unit: w }
+            }
+            What::Desc => Scn { recs: three(c, big_rec("hdr", Some(gen_text(n, c.seed, c.aux % 3)), 9, Pat::Random, c.seed)), wrap: None, widths: vec![4], unit: n },
+            What::Id => Scn { recs: three(c, big_rec(&gen_text(n, c.seed, c.aux % 2), if c.aux % 4 >= 2 { Some("after a long id".into()) } else { None }, 9, Pat::Random, c.seed)), wrap: None, widths: vec![4], unit: n },
+            What::Records | What::FileHist | What::Cut | What::Junk => Scn { recs: many(n, c.seed, c.pat), wrap: if c.aux % 2 == 1 { Some(3) } else { None }, widths: vec![2], unit: 16 },
+            What::Cap | What::Chunk | What::WCap => Scn { recs: straddle_recs(c), wrap: None, widths: vec![], unit: n },
+        }
+    }
+
+    fn u32c(x: usize) -> u32 {
+        x.min(u32::MAX as usize) as u32
+    }
+
+    /// reader configurations of the round trip, chosen relative to the unit (longest line / scaled value)
+    fn vias(c: &LCase, unit: usize, file_len: usize) -> Vec<Via> {
+        let n = unit.max(1);
+        let mut g = Sm::new(c.seed, 0x71a5);
+        let near = |g: &mut Sm| [n.saturating_sub(1).max(1), n, n + 1, n + 2][g.below(4) as usize];
+        let mut v = match c.what {
+            What::Cap => vec![
+                Via::WithCap(c.n),
+                Via::ReadLoop { cap: c.n, sched: vec![u32::MAX] },
+                Via::ReadLoop { cap: c.n, sched: vec![u32c(c.n.saturating_sub(1).max(1)), 7] },
+                Via::Either { cap: c.n, ask: g.coin() },
+                Via::FileCap(c.n),
+            ],
+            What::Chunk => vec![
+                Via::ReadLoop { cap: 8192, sched: vec![u32c(c.n)] },
+                Via::ReadLoop { cap: 2 * c.n + 3, sched: vec![u32c(c.n)] },
+                Via::ReadLoop { cap: c.n + 1, sched: vec![u32c(c.n), 1] },
+                Via::ChunkedNew { sched: vec![u32c(c.n)] },
+                Via::GetKind { sched: vec![u32c(c.n)] },
+            ],
+            _ => vec![
+                Via::SliceNew,
+                Via::CursorBufRead,
+                Via::WithCap(near(&mut g)),
+                Via::WithCap(2 * n + 7),
+                Via::ReadLoop { cap: 8192, sched: vec![u32c(near(&mut g))] },
+                Via::ReadLoop { cap: near(&mut g), sched: vec![u32::MAX] },
+                Via::ChunkedNew { sched: vec![u32c(n.saturating_sub(1).max(1)), 3] },
+                Via::Either { cap: near(&mut g), ask: g.coin() },
+                Via::GetKind { sched: vec![u32c(n)] },
+                Via::GetKindSeek,
+                Via::File,
+                Via::FileCap(near(&mut g)),
+                Via::EitherFile,
+            ],
+        };
+        // large streams: keep the work of one case bounded (a rotating subset of the configurations)
+        let budget: usize = 48 << 20;
+        let per = file_len.max(1) * if matches!(c.what, What::Records | What::Lines) { 6 } else { 1 };
+        let keep = (budget / per).clamp(if huge(c) { 1 } else { 2 }, v.len());
+        if keep < v.len() {
+            let start = g.below(v.len() as u64) as usize;
+            v.rotate_left(start);
+            v.truncate(keep);
+        }
+        v
+    }
+
+    /// cases whose single pass over the stream already costs a few hundred milliseconds
+    fn huge(c: &LCase) -> bool {
+        matches!(c.what, What::Records | What::FileHist) && c.n > 300_000
+    }
+
+    fn what_name(w: What) -> &'static str {
+        match w {
+            What::Seq => "length of one sequence line",
+            What::Wrap => "line width",
+            What::Lines => "number of lines of one record",
+            What::Desc => "description length",
+            What::Id => "id length",
+            What::Records => "number of records",
+            What::Cap => "BufReader capacity",
+            What::Chunk => "read() chunk size",
+            What::WCap => "BufWriter capacity",
+            What::FileHist => "file history: size of the long file",
+            What::Cut => "truncation offset",
+            What::Junk => "junk length",
+        }
+    }
+
+    fn describe_case(c: &LCase) -> String {
+        format!("{:?} {:?} n={} aux={} {:?} seed={} crlf={}", c.kind, c.what, c.n, c.aux, c.pat, c.seed, c.crlf)
+    }
+
+    /// pulls at most `cap` items (the cap of the property: stream length + 8); FASTQ clause for cut streams
+    fn drain_cut(p: &mut Puller, cap: usize, sub: Option<(&Recs, &mut usize)>, ctx: &dyn Fn() -> String) -> Result<(usize, usize), Stop> {
+        let mut items = 0usize;
+        let mut good = 0usize;
+        let mut sub = sub;
+        loop {
+            if items > cap {
+                fail!("{}: does not terminate: more than {} items (stream length + 8)", ctx(), cap);
+            }
+            match p() {
+                None => break,
+                Some(Err(_)) => {}
+                Some(Ok(g)) => {
+                    if let (Some((recs, j)), true, true) = (sub.as_mut(), g.ok, g.qual.is_some()) {
+                        // must be one of the original records, in original order
+                        let mut k = **j;
+                        while k < recs.len() && !same(Kind::Fastq, &g, &recs.get(k)) {
+                            k += 1;
+                        }
+                        ensure!(k < recs.len(), "{}: record {} passes check() but is not one of the original records at or after index {} (original order)", ctx(), show_got(&g), **j);
+                        **j = k + 1;
+                        good += 1;
+                    }
+                }
+            }
+            items += 1;
+        }
+        Ok((items, good))
+    }
+
+    fn junk(n: usize, kindsel: usize, seed: u64) -> Vec<u8> {
+        let rep = |unit: &[u8]| -> Vec<u8> { unit.iter().cycle().take(n).cloned().collect() };
+        match kindsel % 14 {
+            0 => rep(b">"),
+            1 => rep(b"@"),
+            2 => rep(b"+"),
+            3 => rep(b"\n"),
+            4 => rep(b"\r"),
+            5 => rep(b"A"),
+            6 => rep(&[0xff]),
+            7 => rep(b"@\n"),
+            8 => rep(b">\n"),
+            9 => rep(b"+\n"),
+            10 => rep(b"@a\nA\n+\n"),
+            11 => rep(b"@a\nAC\nGT\n+\n@@\n"),
+            12 => rep("é日".as_bytes()),
+            _ => {
+                let mut g = Sm::new(seed, 0x1a2b);
+                (0..n).map(|_| (g.next() & 0xff) as u8).collect()
+            }
+        }
+    }
+
+    pub fn check_large(c: &LCase) -> R {
+        let _published = publish(c);
+        ensure!(c.n >= 1, "harness: n = 0");
+        let mut tmp = TmpFiles::new("C11").map_err(|e| Stop::Fail(format!("harness: cannot create the temporary directory: {:?}", e)))?;
+        let mut pass = Pass::new(c.n >= 255);
+        pass.add(band_label(what_name(c.what), c.n as u64));
+        pass.add(if c.kind == Kind::Fasta { "FASTA" } else { "FASTQ" });
+        pass.add(match c.pat {
+            Pat::Random => "random content",
+            Pat::Homo => "homopolymer / all records equal",
+            Pat::Periodic => "periodic content",
+        });
+        pass.add(intern(format!("scaled: {}", what_name(c.what))));
+        match c.what {
+            What::Junk => return check_junk(c, pass),
+            What::Cut => return check_cut(c, pass),
+            What::FileHist => return check_file_hist(c, pass, &mut tmp),
+            _ => {}
+        }
+        let kind = c.kind;
+        let s = scenario(c);
+        let case = describe_case(c);
+        let mut g = Sm::new(c.seed, 0x3c3c);
+
+        // written by the library
+        let path = tmp.path("rt");
+        let wv = match c.what {
+            What::WCap => WVia::Cap(c.n),
+            _ => [WVia::New, WVia::Cap(1 + g.below(64) as usize), WVia::BufW(s.unit.max(1)), WVia::File, WVia::FileCap(s.unit + 1)][g.below(5) as usize].clone(),
+        };
+        let wrap = if kind == Kind::Fasta { s.wrap } else { None };
+        let via_record = g.coin();
+        let flush = g.below(3) != 0;
+        let written = Rc::new(write_lib(kind, &s.recs, wrap, &wv, via_record, flush, Some(&path))?);
+        if let (Kind::Fasta, Some(w)) = (kind, wrap) {
+            check_wrap(&written, &s.recs, w, &|| format!("{}: fasta::Writer ({:?}) with line wrap {}", case, wv, w))?;
+            pass.add("FASTA writer wraps lines");
+        }
+        if c.what == What::WCap {
+            // the other capacity-taking constructors must give a stream that parses to the same records
+            for wv2 in [WVia::BufW(c.n), WVia::FileCap(c.n)] {
+                let p2 = tmp.path("wcap");
+                let other = Rc::new(write_lib(kind, &s.recs, wrap, &wv2, !via_record, !flush, Some(&p2))?);
+                let mut p = open(kind, &Via::SliceNew, &other, other.len(), None, Some(kind))?;
+                expect_all(&mut p, kind, &s.recs, &|| format!("{}: round trip of the output of the writer built with {:?}", case, wv2))?;
+            }
+            pass.add("writers: with_capacity, from_bufwriter, to_file_with_capacity");
+        }
+        // the file-based readers need the stream on disk
+        if !matches!(wv, WVia::File | WVia::FileCap(_)) {
+            std::fs::write(&path, &written[..]).map_err(|e| Stop::Fail(format!("harness: cannot write {:?}: {:?}", path, e)))?;
+        }
+        let vs = vias(c, s.unit, written.len());
+        for via in &vs {
+            let mut p = open(kind, via, &written, written.len(), Some(&path), Some(kind))?;
+            expect_all(&mut p, kind, &s.recs, &|| format!("{}: round trip (written through {:?}, {} bytes) read through {:?}", case, wv, written.len(), via))?;
+            pass.add(match via {
+                Via::SliceNew => "reader: new(slice)",
+                Via::CursorBufRead => "reader: from_bufread(Cursor), unfragmented",
+                Via::WithCap(_) => "reader: with_capacity",
+                Via::ReadLoop { .. } => "reader: from_bufread + repeated read()",
+                Via::ChunkedNew { .. } => "reader: new(chunked)",
+                Via::File => "reader: from_file",
+                Via::FileCap(_) => "reader: from_file_with_capacity",
+                Via::Either { .. } => "reader: EitherRecords",
+                Via::EitherFile => "reader: EitherRecords::from_file + get_kind_file",
+                Via::GetKind { .. } => "reader: get_kind + new",
+                Via::GetKindSeek => "reader: get_kind_seek + new",
+            });
+        }
+        pass.add(match wv {
+            WVia::New => "writer: new",
+            WVia::Cap(_) => "writer: with_capacity",
+            WVia::BufW(_) => "writer: from_bufwriter",
+            WVia::File => "writer: to_file",
+            WVia::FileCap(_) => "writer: to_file_with_capacity",
+        });
+        pass.add_if(!flush, "writer dropped without flush()");
+
+        // harness layout: re-wrapped lines / CRLF / last terminator optional
+        let final_newline = g.below(4) != 0;
+        let relaid = Rc::new(render_recs(kind, &s.recs, &s.widths, c.crlf, final_newline));
+        let lvs = [Via::SliceNew, Via::CursorBufRead, Via::ReadLoop { cap: s.unit.max(1), sched: vec![u32c(s.unit.max(2) - 1)] }, Via::Either { cap: s.unit + 1, ask: true }];
+        let k = if huge(c) {
+            0
+        } else if relaid.len() > (8 << 20) {
+            1
+        } else {
+            lvs.len()
+        };
+        let start = g.below(lvs.len() as u64) as usize;
+        for j in 0..k {
+            let via = &lvs[(start + j) % lvs.len()];
+            let mut p = open(kind, via, &relaid, relaid.len(), None, Some(kind))?;
+            expect_all(&mut p, kind, &s.recs, &|| format!("{}: harness layout (widths {:?}, crlf {}, last terminator {}, {} bytes) read through {:?}", case, s.widths, c.crlf, final_newline, relaid.len(), via))?;
+        }
+        pass.add_if(c.crlf, "CRLF layout");
+        pass.add_if(!final_newline, "last line unterminated");
+        pass.add_if(kind == Kind::Fastq && !s.widths.is_empty(), "multi-line FASTQ layout");
+        Ok(pass)
+    }
+
+    fn check_junk(c: &LCase, mut pass: Pass) -> R {
+        let data = Rc::new(junk(c.n, c.aux, c.seed));
+        let cap = data.len() + 8;
+        let case = describe_case(c);
+        let mut items = 0;
+        for kind in [Kind::Fasta, Kind::Fastq] {
+            for via in [Via::SliceNew, Via::ReadLoop { cap: 64, sched: vec![u32c(c.n), 1] }, Via::CursorBufRead, Via::Either { cap: 8192, ask: true }, Via::GetKind { sched: vec![u32::MAX] }, Via::GetKindSeek] {
+                let mut p = open(kind, &via, &data, data.len(), None, None)?;
+                items += drain_cut(&mut p, cap, None, &|| format!("{}: {:?} parser through {:?} on {} bytes of junk {}", case, kind, via, data.len(), exc(&data)))?.0;
+            }
+        }
+        pass.add_if(items > 0, "junk produces items");
+        pass.add(intern(format!("junk kind {}", c.aux % 14)));
+        Ok(pass)
+    }
+
+    fn check_cut(c: &LCase, mut pass: Pass) -> R {
+        let kind = c.kind;
+        let case = describe_case(c);
+        // a stream longer than the cut offset
+        let (recs, widths): (Recs, Vec<usize>) = match c.aux % 4 {
+            0 => (many(c.n / 4 + 20, c.seed, c.pat), vec![]), // every record has at least 5 bytes
+            1 => (Recs::List(vec![small_rec("first", 7, c.seed, true), big_rec("big", None, c.n + 100, c.pat, c.seed), small_rec("last", 3, c.seed, false)]), vec![]),
+            2 => (Recs::List(vec![small_rec("first", 7, c.seed, true), big_rec("big", Some("wrapped".into()), c.n + 100, c.pat, c.seed), small_rec("last", 3, c.seed, false)]), vec![60]),
+            // sequence line of 2n/3 symbols: the cut at n lies inside the (equally long) FASTQ quality line
+            _ => (Recs::List(vec![small_rec("first", 7, c.seed, true), big_rec("big", None, if kind == Kind::Fastq { c.n * 2 / 3 + 60 } else { c.n + 100 }, c.pat, c.seed), small_rec("last", 3, c.seed, false)]), vec![]),
+        };
+        let data = Rc::new(render_recs(kind, &recs, &widths, c.crlf, true));
+        ensure!(data.len() > c.n, "harness: the stream of {} bytes is not longer than the cut offset {}", data.len(), c.n);
+        let cut = c.n;
+        let cap = cut + 8;
+        let other = if kind == Kind::Fasta { Kind::Fastq } else { Kind::Fasta };
+        let mut good = 0;
+        let mut items = 0;
+        for via in [Via::SliceNew, Via::ReadLoop { cap: 8192, sched: vec![u32c(c.n / 2 + 1)] }, Via::CursorBufRead, Via::Either { cap: 512, ask: false }] {
+            for k in [kind, other] {
+                let mut j = 0usize;
+                let mut p = open(k, &via, &data, cut, None, None)?;
+                let sub = if kind == Kind::Fastq { Some((&recs, &mut j)) } else { None };
+                let (it, gd) = drain_cut(&mut p, cap, sub, &|| format!("{}: {:?} parser through {:?} on the {:?} stream of {} bytes cut at offset {}", case, k, via, kind, data.len(), cut))?;
+                items += it;
+                good += gd;
+            }
+        }
+        pass.add_if(good > 0, "cut stream yields complete FASTQ records");
+        pass.add_if(items > 0, "cut stream yields items");
+        pass.add(["cut: many small records", "cut: inside one long line", "cut: inside a wrapped record", if kind == Kind::Fastq { "cut: inside the long second line (FASTQ: quality line)" } else { "cut: inside one long line" }][c.aux % 4]);
+        Ok(pass)
+    }
+
+    /// histories on ONE path: a long file, then a shorter one, then a medium one; every file is written
+    /// by a file-based writer constructor and read back through every file-based reader entry point
+    fn check_file_hist(c: &LCase, mut pass: Pass, tmp: &mut TmpFiles) -> R {
+        let case = describe_case(c);
+        let path = tmp.path("hist");
+        let mut g = Sm::new(c.seed, 0xf11e);
+        let other = if c.kind == Kind::Fasta { Kind::Fastq } else { Kind::Fasta };
+        let long: Recs = if c.aux % 2 == 0 { many(c.n, c.seed, c.pat) } else { Recs::List(vec![big_rec("long", Some("the long file".into()), c.n, c.pat, c.seed), small_rec("tail", 5, c.seed, false)]) };
+        let steps: Vec<(Kind, Recs)> = vec![
+            (c.kind, long),
+            (if c.aux % 4 >= 2 { other } else { c.kind }, Recs::List(vec![small_rec("short", 4, c.seed ^ 1, true)])),
+            (c.kind, many((c.n / 7).max(2), c.seed ^ 2, Pat::Random)),
+            (other, Recs::List(vec![small_rec("a", 1, c.seed ^ 3, false), small_rec("b", 2, c.seed ^ 4, false)])),
+        ];
+        for (i, (kind, recs)) in steps.iter().enumerate() {
+            let wv = if g.coin() { WVia::File } else { WVia::FileCap([1usize, 64, 8192, c.n][g.below(4) as usize]) };
+            let flush = g.coin();
+            let wrap = if *kind == Kind::Fasta && g.coin() { Some(1 + g.below(70) as usize) } else { None };
+            let written = Rc::new(write_lib(*kind, recs, wrap, &wv, g.coin(), flush, Some(&path))?);
+            for via in [Via::File, Via::FileCap(1 + g.below(9000) as usize), Via::EitherFile, Via::SliceNew] {
+                let mut p = open(*kind, &via, &written, written.len(), Some(&path), Some(*kind))?;
+                expect_all(&mut p, *kind, recs, &|| format!("{}: step {} of the history on one path ({:?} file of {} records written through {:?}, {} bytes on disk) read through {:?}", case, i, kind, recs.len(), wv, written.len(), via))?;
+            }
+        }
+        pass.add("file history: long, short, medium, short on one path");
+        pass.add_if(c.aux % 4 >= 2, "file history: FASTA and FASTQ alternate on the path");
+        Ok(pass)
+    }
+
+    // ---- enumeration (deterministic grid) and random strategy
+
+    fn top(what: What, t: Tier) -> u64 {
+        // largest ladder centre whose single case stays below about a second
+        match (what, t) {
+            (What::FileHist, Tier::Quick) => 131_072,
+            _ => 1 << 20,
+        }
+    }
+
+    fn grid(whats: &[What], t: Tier) -> Vec<LCase> {
+        let mut out = Vec::new();
+        let mut k = 0usize; // rotates the secondary choices so that every combination occurs along the ladder
+        for seed in 1..=6u64 {
+            for &what in whats {
+                // quick: one seed; thorough: three seeds for the parameters that cost microseconds per unit, six for the others
+                let nseeds = match (t, what) {
+                    (Tier::Quick, _) => 1,
+                    (_, What::Records) | (_, What::Lines) | (_, What::FileHist) => 3,
+                    _ => 6,
+                };
+                if seed > nseeds {
+                    continue;
+                }
+                let mut values = ladder(top(what, t));
+                if seed == 1 {
+                    values.splice(0..0, [1u64, 2, 63, 64, 65]);
+                }
+                for &n in &values {
+                    for kind in [Kind::Fasta, Kind::Fastq] {
+                        if what == What::Junk && kind == Kind::Fastq {
+                            continue; // junk runs through both parsers anyway
+                        }
+                        if t == Tier::Quick && what == What::Records && (n == (1 << 19) - 1 || n == 1 << 19) {
+                            continue; // 0.7 s each: the quick tier keeps 2^19+1 and all of 2^20-1..2^20+1
+                        }
+                        if t == Tier::Quick && matches!(what, What::Records | What::FileHist) && n > 60_000 && (kind == Kind::Fastq) != (n % 2 == 0) {
+                            continue; // 0.2 - 1.5 s per case: the two formats alternate along the ladder
+                        }
+                        let reps = if t == Tier::Thorough && n <= 70_001 { 3 } else { 1 };
+                        for _ in 0..reps {
+                            k += 1;
+                            out.push(LCase { kind, what, n: n as usize, aux: k, pat: [Pat::Random, Pat::Homo, Pat::Periodic][(k / 2) % 3], seed: seed.wrapping_mul(0x9e37_79b9) ^ (k as u64) << 7, crlf: (k / 3) % 2 == 1 });
+                        }
+                    }
+                }
+            }
+        }
+        out.sort_by_key(|c| c.n); // small first: the first failure is the smallest one of the grid
+        out
+    }
+
+    pub fn enum_line(t: Tier) -> Box<dyn Iterator<Item = LCase>> {
+        Box::new(grid(&[What::Seq, What::Wrap, What::Desc, What::Id], t).into_iter())
+    }
+    pub fn enum_lines(t: Tier) -> Box<dyn Iterator<Item = LCase>> {
+        Box::new(grid(&[What::Lines], t).into_iter())
+    }
+    pub fn enum_records(t: Tier) -> Box<dyn Iterator<Item = LCase>> {
+        Box::new(grid(&[What::Records], t).into_iter())
+    }
+    pub fn enum_buffer(t: Tier) -> Box<dyn Iterator<Item = LCase>> {
+        Box::new(grid(&[What::Cap, What::Chunk, What::WCap], t).into_iter())
+    }
+    pub fn enum_stream(t: Tier) -> Box<dyn Iterator<Item = LCase>> {
+        Box::new(grid(&[What::FileHist, What::Cut, What::Junk], t).into_iter())
+    }
+
+    /// the band labels every tier reaches for the given scenarios (quick-tier tops)
+    pub fn reach(whats: &[What], extra: &[&'static str]) -> &'static [&'static str] {
+        let mut v: Vec<&'static str> = Vec::new();
+        for &w in whats {
+            for &c in crate::oracles::scale::c111213::CENTRES {
+                if c <= top(w, Tier::Quick) {
+                    v.push(band_label(what_name(w), c));
+                }
+            }
+        }
+        v.extend_from_slice(extra);
+        Box::leak(v.into_boxed_slice())
+    }
+
+    /// random parameters: values near the ladder (centre +- 3) or log-uniform in between, every scenario
+    pub fn strat_random(_t: Tier) -> BoxedStrategy<LCase> {
+        let what = proptest::sample::select(vec![What::Seq, What::Wrap, What::Lines, What::Desc, What::Id, What::Records, What::Cap, What::Chunk, What::WCap, What::FileHist, What::Cut, What::Junk]);
+        let n = prop_oneof![
+            3 => (proptest::sample::select(vec![256u64, 512, 1024, 4096, 8192, 16384, 32768, 65536, 70_000, 131_072]), 0u64..=6).prop_map(|(c, d)| c + d - 3),
+            2 => (8u32..=17, any::<u16>()).prop_map(|(bits, r)| (1u64 << bits) + (r as u64 * ((1u64 << bits) - 1) >> 16)),
+            1 => 1u64..=300,
+        ];
+        (what, n, any::<bool>(), 0usize..1000, proptest::sample::select(vec![Pat::Random, Pat::Homo, Pat::Periodic]), any::<u64>(), any::<bool>())
+            .prop_map(|(what, n, fq, aux, pat, seed, crlf)| {
+                // the expensive parameters stay below ~70 000 in the random sub-check (the grid covers the rest)
+                let n = if matches!(what, What::Records | What::Lines | What::FileHist) { n.min(70_003) } else { n };
+                LCase { kind: if fq { Kind::Fastq } else { Kind::Fasta }, what, n: n as usize, aux, pat, seed, crlf }
+            })
+            .boxed()
+    }
+}
+
 pub fn property() -> Property {
     Property {
         id: "C11",
-        rule: "fasta/fastq: 1-6 generated records (id of 1-12 non-blank characters, optional description without line breaks and without leading/trailing blanks, sequence of 1-2000 symbols of [A-Za-z*.-], qualities of the same length over '!'..'~' with '@' or '+' forced first in a third of the records) are written with the library writer (FASTA line wrap none or 1..80; write() or write_record(); default or small BufWriter) and read back with 1-3 reader configurations = BufReader capacity (1, 2..64, 8192) x cyclic read() schedule (1..3, 1..50, 1..9000 bytes or unfragmented, optionally with injected ErrorKind::Interrupted) x construction path (with_capacity, new, from_bufread; records() or repeated read()); oracle = the generated records themselves. The same records rendered by the harness with re-wrapped (uniform or ragged, identical for sequence and quality) lines, CRLF and an optional missing last terminator must parse to the same records; get_kind / get_kind_seek / EitherRecords must select the kind and give the same records. Then the stream (writer output or harness layout) is cut at every offset (streams <= 600 bytes) or 64 sampled offsets and every prefix is fed to the format's reader, the other format's reader and EitherRecords with an item cap of bytes+8 (no panic, terminates); FASTQ: records of a cut stream that pass check() must be a subsequence (original order) of the written records. bytes: random bytes, grammar-aware junk and damaged valid files through all three parsers (no panic, item cap). Non-trivial (fasta/fastq) = at least 2 records, one sequence longer than a used buffer capacity and a read() boundary strictly inside a record; (bytes) = at least 2 bytes and some parser produced an item. Distinct = distinct serialised case.",
+        rule: "fasta/fastq: 1-6 generated records (id of 1-12 non-blank characters, optional description without line breaks and without leading/trailing blanks, sequence of 1-2000 symbols of [A-Za-z*.-], qualities of the same length over '!'..'~' with '@' or '+' forced first in a third of the records) are written with the library writer (FASTA line wrap none or 1..80; write() or write_record(); default or small BufWriter) and read back with 1-3 reader configurations = BufReader capacity (1, 2..64, 8192) x cyclic read() schedule (1..3, 1..50, 1..9000 bytes or unfragmented, optionally with injected ErrorKind::Interrupted) x construction path (with_capacity, new, from_bufread; records() or repeated read()); oracle = the generated records themselves. The same records rendered by the harness with re-wrapped (uniform or ragged, identical for sequence and quality) lines, CRLF and an optional missing last terminator must parse to the same records; get_kind / get_kind_seek / EitherRecords must select the kind and give the same records. Then the stream (writer output or harness layout) is cut at every offset (streams <= 600 bytes) or 64 sampled offsets and every prefix is fed to the format's reader, the other format's reader and EitherRecords with an item cap of bytes+8 (no panic, terminates); FASTQ: records of a cut stream that pass check() must be a subsequence (original order) of the written records. bytes: random bytes, grammar-aware junk and damaged valid files through all three parsers (no panic, item cap). Non-trivial (fasta/fastq) = at least 2 records, one sequence longer than a used buffer capacity and a read() boundary strictly inside a record; (bytes) = at least 2 bytes and some parser produced an item. large-*: parameter-only cases (records, file and reader configurations are a fixed splitmix64 function of them) push ONE size parameter across the ladder 255..257, 511..513, 1023..1025, 4095..4097, 8191..8193, 16383..16385, 32767..32769, 65535..65537, 69999..70001, 131071..131073, 2^19+-1, 2^20+-1: length of one unwrapped sequence line, line width (FASTA writer wrap + harness layout for both formats), number of lines of one record (width 1-3/61; multi-line FASTQ with homopolymer '+'/'@' qualities), description / id length (ASCII, multi-byte UTF-8, inner blanks), number of records (all-equal and random), BufReader capacity and read() chunk size with lines straddling them, BufWriter capacity, histories on one path (long, short, medium, short file; formats alternating) through to_file / to_file_with_capacity / from_file / from_file_with_capacity / EitherRecords::from_file / get_kind_file, truncation offset (no panic, item cap, FASTQ records passing check() are original records in order) and junk length (14 junk kinds). Every round trip is read through unfragmented readers (slice, from_bufread(Cursor), File), with_capacity, from_bufread + repeated read() over the chunked double, EitherRecords, get_kind, get_kind_seek; oracle = the generated records, compared streaming. The large-* grids are enumerated (every ladder value by construction, smallest first), large-random draws the same cases at random (values near the ladder or log-uniform up to 2^18). Non-trivial (large) = scaled value >= 255. Distinct = distinct serialised case.",
         assumptions: &[
             "descriptions are non-empty and carry no leading/trailing blanks (a header line's trailing blanks and the empty description are not representable; the readers document trim_end)",
             "sequence lines never start with '>' or '+' (reserved by the formats); sequences are non-empty",
@@ -998,6 +2027,55 @@ pub fn property() -> Property {
                 strat: strat_bytes,
                 check: check_bytes,
                 must_reach: &["invalid UTF-8", "sniffer rejects", "fasta reader yields a record", "fastq reader yields a record", "fastq reader continues after an error", "capacity 1", "empty input"],
+                watch: true,
+            }),
+            Box::new(ExhSub {
+                name: "C11/large-line",
+                enumerate: large::enum_line,
+                check: large::check_large,
+                must_reach: large::reach(
+                    &[large::What::Seq, large::What::Wrap, large::What::Desc, large::What::Id],
+                    &["FASTA", "FASTQ", "FASTA writer wraps lines", "multi-line FASTQ layout", "CRLF layout", "last line unterminated", "reader: from_bufread(Cursor), unfragmented", "reader: from_file", "reader: from_file_with_capacity", "reader: EitherRecords::from_file + get_kind_file", "writer: to_file", "writer: to_file_with_capacity", "writer: from_bufwriter", "writer dropped without flush()", "homopolymer / all records equal"],
+                ),
+            }),
+            Box::new(ExhSub {
+                name: "C11/large-lines",
+                enumerate: large::enum_lines,
+                check: large::check_large,
+                must_reach: large::reach(&[large::What::Lines], &["FASTA", "FASTQ", "FASTA writer wraps lines", "multi-line FASTQ layout", "homopolymer / all records equal", "reader: from_bufread + repeated read()", "reader: from_file"]),
+            }),
+            Box::new(ExhSub {
+                name: "C11/large-records",
+                enumerate: large::enum_records,
+                check: large::check_large,
+                must_reach: large::reach(&[large::What::Records], &["FASTA", "FASTQ", "multi-line FASTQ layout", "homopolymer / all records equal", "reader: from_bufread + repeated read()", "reader: from_file"]),
+            }),
+            Box::new(ExhSub {
+                name: "C11/large-buffer",
+                enumerate: large::enum_buffer,
+                check: large::check_large,
+                must_reach: large::reach(&[large::What::Cap, large::What::Chunk, large::What::WCap], &["FASTA", "FASTQ", "reader: with_capacity", "reader: from_file_with_capacity", "reader: new(chunked)", "reader: get_kind + new", "writers: with_capacity, from_bufwriter, to_file_with_capacity"]),
+            }),
+            Box::new(ExhSub {
+                name: "C11/large-stream",
+                enumerate: large::enum_stream,
+                check: large::check_large,
+                must_reach: large::reach(
+                    &[large::What::FileHist, large::What::Cut, large::What::Junk],
+                    &["file history: long, short, medium, short on one path", "file history: FASTA and FASTQ alternate on the path", "cut stream yields complete FASTQ records", "cut: many small records", "cut: inside one long line", "cut: inside a wrapped record", "cut: inside the long second line (FASTQ: quality line)", "junk produces items"],
+                ),
+            }),
+            Box::new(PropSub {
+                name: "C11/large-random",
+                quick: 1_600,
+                thorough: 32_000,
+                shards_quick: 8,
+                shards_thorough: 16,
+                strat: large::strat_random,
+                check: large::check_large,
+                must_reach: &[
+                    "scaled: length of one sequence line", "scaled: line width", "scaled: number of lines of one record", "scaled: description length", "scaled: id length", "scaled: number of records", "scaled: BufReader capacity", "scaled: read() chunk size", "scaled: BufWriter capacity", "scaled: file history: size of the long file", "scaled: truncation offset", "scaled: junk length",
+                ],
                 watch: true,
             }),
         ],
